@@ -176,6 +176,16 @@ def set_case(draw):
         a, b = s[::2], s[1::2]
     x = draw(st.sampled_from(pool))
     tagged = draw(st.booleans())
+    if kind == "num" and draw(st.integers(0, 2)) == 0:
+        # long sets from arithmetic progressions (lengths up to 150: long two-pointer walks, deep binary searches), members and
+        # non-members at every position
+        pattern = "progressions"
+        s1, s2 = draw(st.integers(1, 4)), draw(st.integers(1, 4))
+        o1, o2 = draw(st.integers(-5, 5)), draw(st.integers(-5, 5))
+        n1, n2 = draw(st.integers(0, 150)), draw(st.integers(0, 150))
+        a = [float(o1 + s1 * i) for i in range(n1)]
+        b = [float(o2 + s2 * i) for i in range(n2)]
+        x = float(draw(st.integers(-8, 620))) + draw(st.sampled_from([0.0, 0.0, 0.5]))
     return {"kind": kind, "a": a, "b": b, "x": x, "tagged": tagged, "pattern": pattern}
 
 
